@@ -35,7 +35,7 @@ def cov_case(rng):
   with warnings.catch_warnings():
     warnings.simplefilter('ignore')
     try:
-      ev['L'] = dym(gen.Covariance().fit(X).components_)
+      ev['L'] = dym(gen.Covariance().fit(X.copy()).components_)
     except Exception as e:
       ev['exc'] = type(e).__name__
   return ev
@@ -51,7 +51,7 @@ def rca_case(rng):
   with warnings.catch_warnings():
     warnings.simplefilter('ignore')
     try:
-      est = gen.RCA(n_components=n_comp).fit(X, ch)
+      est = gen.RCA(n_components=n_comp).fit(X.copy(), ch.copy())      # (copies: the witnesses below need the pristine input)
       ev['L'] = dym(est.components_)
       # witness: generalised eigen-decomposition C_w v = lam C_t v (ascending), normalised V^T C_t V = I
       m = ch != -1
@@ -82,7 +82,7 @@ def lfda_case(rng):
   with warnings.catch_warnings():
     warnings.simplefilter('ignore')
     try:
-      est = gen.LFDA(n_components=n_comp, k=kparam or None, embedding_type=emb).fit(X, y)
+      est = gen.LFDA(n_components=n_comp, k=kparam or None, embedding_type=emb).fit(X.copy(), y.copy())
       L = est.components_
       ev['L'] = dym(L)
       # ---- witnesses (untrusted; TLC verifies them) for the DOCUMENTED local scale and for the named deviation D6
